@@ -176,7 +176,14 @@ def main():
     def fresh_app():
         return ServerSideFunctions(BaseHandler(build_dataset()))
     direct = []
-    baseline = {u: fetch(fresh_app(), u) for u in REQUESTS}
+    class Baseline(dict):
+        """answer of a freshly built application, computed on first use"""
+        def __missing__(self, u):
+            self[u] = fetch(fresh_app(), u)
+            return self[u]
+    baseline = Baseline()
+    for u in REQUESTS:
+        baseline[u]
     stats = {"histories": 0, "requests_in_histories": 0, "schedules": 0, "switches": 0, "single_preemption": 0, "double_preemption": 0,
              "random_line_schedules": 0, "baseline_outcomes": {}}
     for u, b in baseline.items():
